@@ -34,6 +34,8 @@ type vhSrvConn struct {
 	reads   int
 	closed  int
 	written [][]byte
+	srv     *Server // when set: Write checks the busy-flag protocol of the connection that owns this conn
+	idleAtWrite bool
 }
 
 func (c *vhSrvConn) Read(p []byte) (int, error) {
@@ -44,6 +46,14 @@ func (c *vhSrvConn) Read(p []byte) (int, error) {
 	return 0, io.EOF
 }
 func (c *vhSrvConn) Write(b []byte) (int, error) {
+	if c.srv != nil {
+		// graceful shutdown closes every connection whose busy flag is clear: the flag must cover the reply write
+		for k := range c.srv.activeConnections {
+			if k.conn == net.Conn(c) && !k.isBeingHandled.Load() {
+				c.idleAtWrite = true
+			}
+		}
+	}
 	cp := make([]byte, len(b))
 	copy(cp, b)
 	c.written = append(c.written, cp)
@@ -87,7 +97,7 @@ func VH_C17_serve() {
 	l := &vhListener{}
 	var rejects []bool
 	for i := 0; i < nconn; i++ {
-		l.conns = append(l.conns, &vhSrvConn{request: []byte{0, byte(i + 1), 0, 0, 0, 6, 1, 3, 0, 10, 0, 2}})
+		l.conns = append(l.conns, &vhSrvConn{srv: s, request: []byte{0, byte(i + 1), 0, 0, 0, 6, 1, 3, 0, 10, 0, 2}})
 		rejects = append(rejects, vndBool("reject"))
 	}
 	l.before = func() {
@@ -139,6 +149,7 @@ func VH_C17_serve() {
 	for i, c := range l.conns {
 		rejected := cfg&4 != 0 && rejects[i]
 		vndAssert(c.closed == 1, "every connection (accepted or rejected) is closed exactly once")
+		vndAssert(!c.idleAtWrite, "a connection is marked as being handled while its reply is written (Shutdown closes connections that are not)")
 		if rejected {
 			vndCover("rejected")
 			vndAssert(c.reads == 0 && len(c.written) == 0, "a rejected connection is never served")
